@@ -49,6 +49,9 @@ pub enum Behaviour {
     Burn(u32),
     /// Hash the serialised last argument (the script context): cost depends on the context.
     HashCtx,
+    /// `consByteString 256 #""`: wraps under the pre-Chang builtin semantics of Plutus V1/V2 and
+    /// fails afterwards, so the verdict depends on the protocol version handed to the evaluator.
+    ConsWrap,
 }
 
 #[derive(Clone, Debug, Serialize, Deserialize, PartialEq)]
@@ -148,6 +151,9 @@ fn script_source(s: &ScriptUse) -> String {
         Behaviour::Fail => "(error)".to_string(),
         Behaviour::Burn(k) => format!(
             "[ [ (lam s [ s s ]) (lam self (lam i (force [ [ [ (force (builtin ifThenElse)) [ [ (builtin lessThanEqualsInteger) i ] (con integer 0) ] ] (delay {unit}) ] (delay [ [ self self ] [ [ (builtin subtractInteger) i ] (con integer 1) ] ]) ]))) ] (con integer {k}) ]"
+        ),
+        Behaviour::ConsWrap => format!(
+            "[ (lam h {unit}) [ [ (builtin consByteString) (con integer 256) ] (con bytestring #) ] ]"
         ),
         Behaviour::HashCtx => format!(
             "[ (lam h {unit}) [ (builtin sha2_256) [ (builtin serialiseData) {last} ] ] ]"
@@ -1049,6 +1055,8 @@ fn gen_scenario(rng: &mut Rng) -> Scenario {
             0 => Behaviour::Fail,
             1..=3 => Behaviour::Ok,
             4..=7 => Behaviour::Burn(rng.range(1, 400) as u32),
+            8 if version >= 2 => Behaviour::HashCtx,
+            9 if version <= 2 => Behaviour::ConsWrap,
             _ if version >= 2 => Behaviour::HashCtx,
             _ => Behaviour::Burn(7),
         };
